@@ -193,7 +193,15 @@ def run(ctx):
                   "the calls f(get<Is>(t))... are expanded %s: only a braced init-list guarantees left-to-right evaluation, so member sinks may be called in a different order"
                   % ("as function arguments / outside a braced list" if packs_elsewhere else "nowhere"), f)
         txt = " ".join(fmt(e["expr"]) for _, _, e in f.roots())
-        ctx.check("get(t)" in txt, "R05.6", f, "visits-get-Is", "for_each does not apply f to std::get<Is>(t)", f)
+        pt = f.params[0].get("name") if len(f.params) >= 2 else None
+        pf = f.params[1].get("name") if len(f.params) >= 2 else None
+        insts = [g for g in prog.fns.values() if g.has_cfg and g.flags.get("instantiation_of") == f.id]
+        okv = bool(pt and pf) and "get(%s)" % pt in txt
+        for g in insts:
+            gt = " ".join(fmt(e["expr"]) for _, _, e in g.roots())
+            okv = okv and "%s(get(%s))" % (pf, pt) in gt
+        ctx.check(okv and len(insts) >= 1, "R05.6", f, "visits-get-Is",
+                  "for_each does not apply its callable parameter to std::get<Is>(its tuple parameter) (pattern and %d instantiations)" % len(insts), f)
     tf = [f for f in prog.fns.values() if f.has_cfg and f.is_pattern and f.qual == "nitro::lang::tuple_foreach"]
     for f in tf:
         txt = " ".join(fmt(e["expr"]) for _, _, e in f.roots())
@@ -202,7 +210,9 @@ def run(ctx):
     ctx.need("R05.6", "sequence::sink fan-out lambda", len(sq), 1)
     for f in sq:
         calls = [n for _, _, e in f.roots() for n in elem_calls(e) if short(n.get("name") or "") == "sink"]
-        ok = len(calls) == 1 and [fmt(ir.unwrap(a)) for a in calls[0].get("args", [])] == ["sev", "formatted_record"]
+        parent = [g for g in prog.fns.values() if g.is_pattern and g.kind == "method" and g.qual == "nitro::log::sink::sequence::sink" and f.id.startswith(g.id)]
+        pnames = [p.get("name") for p in parent[0].params] if parent else ["sev", "formatted_record"]
+        ok = len(calls) == 1 and [fmt(ir.unwrap(a)) for a in calls[0].get("args", [])] == pnames
         ctx.check(ok, "R05.6", f, "forwards-both-parameters-unchanged", "a member sink receives %s" % [[fmt(a) for a in c.get("args", [])] for c in calls], f)
 
     # ---- R05.8
